@@ -373,7 +373,7 @@ fn gen_case(rng: &mut Rng, avoid_scope_names: bool) -> Case {
     let fns = if use_fn { vec![FnDef { name: "f0".to_string(), scoped: false, body: burst(rng, avoid_scope_names), sp: rng.next_u64() as u32 }] } else { vec![] };
     let cnd = (0..n_cnd).map(|_| (0..1 + rng.usize(2)).map(|_| true).collect()).collect();
     let nested = if rng.chance(2, 3) { (0..1 + rng.usize(3)).map(|_| (rng.below(8) as u32, rng.below(14) as u32)).collect() } else { vec![] };
-    Case { entropy: rng.next_u64(), program: Program { fns, arrays: vec![], main, cnd, fail_leaf: vec![], forever: false }, nested }
+    Case { entropy: rng.next_u64(), program: Program { fns, arrays: vec![], main, cnd, fail_leaf: vec![], forever: false, crlf: false }, nested }
 }
 
 fn run_case(case: &Case, env: &WorkerEnv) -> Verdict {
